@@ -359,6 +359,7 @@ def run(ctx):
                    "the loop around `read` in %s tests the byte count against 0 and leaves the loop (a closed stream "
                    "returns Ok(0) forever)" % short(root_fn(f, n)), where=c.where(), detail=detail or "no zero-length test in the loop")
     ctx.floor("R-LOOP", "loops around AsyncReadExt::read in rtr", nloops, 1)
+    check_plain_reads(ctx, f)
 
     # ---- C07.e observation: allocation by declared length ------------------------------------------------
     allocs = []
@@ -370,6 +371,8 @@ def run(ctx):
                     if any("len" in x for x in a):
                         allocs.append("%s: %s(%s)" % (short(root_fn(f, n)), c.name, ", ".join(a)))
     ctx.note("observation (not a C07 violation): buffers sized by the announced PDU length before any payload byte arrives: %s" % allocs)
+
+    check_payload_new(ctx, f)
 
     # ---- C07.f to_payload validates through the checked constructors -------------------------------------
     mb = f.body(P + "Payload::to_payload::make_payload")
@@ -394,6 +397,54 @@ def run(ctx):
             any("Payload::aspa(Aspa::customer(payload↓Aspa.0), Aspa::providers(payload↓Aspa.0))" in v for v in vals)
         ctx.ob("R-FLOW", "to_payload:aspa", okw, "an ASPA withdrawal yields empty providers, an announcement the PDU's providers",
                where=mb.loc, detail=None if okw else vals)
+
+
+def check_plain_reads(ctx, f):
+    # who uses a plain (possibly short) `read`, and how much it may take: fixed-size parts of a PDU are filled with read_exact;
+    # the two cursor loops hand `read` either the still-missing tail of the fixed target or at most min(remaining, buffer)
+    plain = []
+    for n, b in f.bodies.items():
+        if not n.startswith("rtr::"):
+            continue
+        for c in b.calls():
+            if c.name == "read" and (c.trait or "").endswith("AsyncReadExt") and not b.is_cleanup(c.bb):
+                plain.append((root_fn(f, n), K.alpha(K.arg_renders(c)[1], b), c.where()))
+    who = sorted({x[0] for x in plain})
+    ctx.ob("R-WHO", "AsyncReadExt::read-callers", who == ["rtr::pdu::Error::skip_payload", "rtr::server::Connection::<Sock, Source>::read_header"],
+           "a plain `read` (which may return fewer bytes than asked for) is used only by the two cursor loops; every fixed-size "
+           "PDU part is filled by read_exact", detail=who)
+    for fn, buf, where in plain:
+        ok = re.match(r"^IndexMut::index_mut\(\^, ops::RangeFrom::RangeFrom\{start: \$\}\)$", buf) is not None or \
+            re.search(r"RangeTo\{end: cmp::min\(\$, ", buf) is not None
+        ctx.ob("R-FLOW", "%s:read-is-bounded-by-what-is-missing" % short(fn), ok,
+               "%s never asks `read` for more than the bytes still missing from the current PDU (the rest of the stream belongs "
+               "to the next PDU)" % short(fn), where=where, detail=buf)
+
+
+
+def check_payload_new(ctx, f):
+    """Writer side: Payload::new builds each PDU from the payload's own fields, each in its own slot."""
+    b = f.body(P + "Payload::new")
+    if b is None:
+        return ctx.missing("R-FLOW", "Payload::new", P + "Payload::new")
+    ctx.saw_fn(b.name)
+    want = {
+        P + "Ipv4Prefix::new": ["%1", "%2", "MaxLenPrefix::prefix_len(%3↓Origin.0.prefix)", "MaxLenPrefix::resolved_max_len(%3↓Origin.0.prefix)",
+                                "MaxLenPrefix::addr(%3↓Origin.0.prefix)↓V4.0", "%3↓Origin.0.asn"],
+        P + "Ipv6Prefix::new": ["%1", "%2", "MaxLenPrefix::prefix_len(%3↓Origin.0.prefix)", "MaxLenPrefix::resolved_max_len(%3↓Origin.0.prefix)",
+                                "MaxLenPrefix::addr(%3↓Origin.0.prefix)↓V6.0", "%3↓Origin.0.asn"],
+        P + "RouterKey::new": ["%1", "%2", "%3↓RouterKey.0.key_identifier", "%3↓RouterKey.0.asn", "%3↓RouterKey.0.key_info"],
+        P + "Aspa::new": ["%1", "%2", "%3↓Aspa.0.customer", "%3↓Aspa.0.providers"],
+    }
+    seen = {}
+    for c in b.calls():
+        if c.res in want and not b.is_cleanup(c.bb):
+            seen.setdefault(c.res, []).append([K.alpha(x, b) for x in K.arg_renders(c)])
+    for res, args in sorted(want.items()):
+        got = seen.get(res, [])
+        ctx.ob("R-FLOW", "Payload::new→%s" % short(res), got == [args],
+               "Payload::new fills %s with (version, flags, %s) of the payload it was given" % (short(res), ", ".join(a.split("↓")[-1] for a in args[2:])),
+               where=b.loc, detail=got)
 
 
 def _ordinal(b, c):
